@@ -1,5 +1,4 @@
-\* every single request and every batch of one entry over the full member alphabet; the code as it is
-\* measured: see checks/C11.py evidence (about 0.6 M distinct states)
+\* the code as it is, server with DisableBatchRequests(true); rows exported.  measured: 1 414 distinct states
 CONSTANTS
   Methods <- MCMethods
   EntryAlphabet <- EntriesSmall
@@ -7,9 +6,9 @@ CONSTANTS
   MaxEntries = 2
   PoolSize = 1
   BatchDisabled = TRUE
-  FixNotif = FALSE
+  FixNotif = TRUE
   FixNonRequest = FALSE
-  FixLongWs = FALSE
+  FixLongWs = TRUE
   FarChoices = {TRUE, FALSE}
 INIT TableInit
 NEXT TableNext
